@@ -93,6 +93,15 @@ CHECKS = {
             "exception.",
             "Trusted: TLC, projection of ParseTree (value, sons). Recursive descent only inside its termination domain.",
             "DESIGN.md section 3 C15"),
+    "C05": ("TLA+ token-string generator (RegexGen) enumerated by TLC, every token string rendered to text in two "
+            "spacing styles and given to Regex(); outcome, accepts(), the recorded epsilon-NFA and CFG, str() round trip "
+            "and the combinators judged by TraceRegex against the documented grammar as a recursive-descent parser in "
+            "TLA+ (RegexSem!Parse), itself model-checked against AST denotations (ASTOK)",
+            "Exhaustive within small constants: all token strings up to length 5|6 over several 8-12 token alphabets "
+            "(well-formed with minimal or redundant parentheses, and ill-formed), each settled on all words up to length 3; "
+            "ill-formed text must raise MisformedRegexError and nothing else.",
+            "Trusted: TLC, projections, the renderer. Texts the documentation does not settle are UNSPEC.",
+            "DESIGN.md section 3 C05"),
 }
 
 NOT_YET = "check not built yet in this round (see DESIGN.md section 9, build order); no claim is made"
